@@ -149,7 +149,7 @@ def gen_bam(rng, scene):
             gen_tags(rng, d)
             place(rng, d, anchors, CONTIGS)
             if rng.random() < 0.05:
-                d['mate'] = 1           # flagged read 1 but not paired (legal flag combination)
+                d['mate'] = rng.choice([1, 2, 3])      # mate flag(s) on an unpaired record: read 1, read 2, both (legal SAM)
             reads.append(d)
         elif kind == 'unplaced':
             d = dict(base)
@@ -207,7 +207,7 @@ def to_segment(header, d):
         tags[k] = (v / 4.0, 'f')
     return bamgen.make_read(
         header, d['name'], d['contig'] or None, d['start'], ('ACGTTGCA' * 10)[:d['qlen']],
-        cigar=d['cigar'] or None, read1=d['mate'] == 1, read2=d['mate'] == 2, paired=d['paired'], proper=d['proper'],
+        cigar=d['cigar'] or None, read1=d['mate'] in (1, 3), read2=d['mate'] in (2, 3), paired=d['paired'], proper=d['proper'],
         mate_contig=d['mcontig'] or None, mate_pos=d['mpos'] if d['mcontig'] else None, mate_unmapped=d['mate_unmapped'],
         unmapped=not d['mapped'], mapq=d['mapq'], dup=d['dup'], qcfail=d['qcfail'], tags=tags)
 
